@@ -18,6 +18,9 @@ import (
 var knownReaders = map[string]bool{
 	"Write": true, "len": true, "cap": true, "EncodeToString": true, "SetBytes": true, "Uint64": true, "Uint32": true, "Uint16": true,
 	"Equal": true, "string": true, "DecodeString": true, "ReadFull": false,
+	// read-only functions of bytes, crypto/subtle, crypto/sha256 that a rewrite of the codecs is likely to reach for
+	"Compare": true, "HasPrefix": true, "HasSuffix": true, "Index": true, "IndexByte": true, "Contains": true,
+	"ConstantTimeCompare": true, "Sum256": true, "NewReader": true, "Errorf": true, "Sprintf": true,
 }
 
 type sliceAnalysis struct {
